@@ -12,6 +12,9 @@ from .options import Options, RuntimeContext
 from .rule import resolve_forward_type
 
 __parsers__ = {}
+# one lock for every first-use resolution: a subclass shares the pending references and the fields of its bases,
+# so a lock per parser would let the first parse of a class race with the first parse of its subclass
+__forward_refs_lock__ = threading.RLock()
 
 
 class BaseParser:
@@ -83,7 +86,7 @@ class BaseParser:
         self.addition_type = None
         self.name = get_obj_name(obj)
         self.is_local = is_local_var(obj)
-        self._forward_refs_lock = threading.RLock()
+        self._forward_refs_lock = __forward_refs_lock__
         self.setup()
 
     def make_context(self, context=None, force_error: bool = False):
